@@ -437,6 +437,18 @@ class Ctx:
     def n(self, quick: int, thorough: int) -> int:
         return thorough if self.thorough else quick
 
+    def out_of_time(self) -> bool:
+        """safety cap on the run time of the generated-case loops (case counts are fixed per tier and
+        tuned to stay well below it; when the cap is hit the run stops generating, reports what it
+        explored and says so in the evidence)"""
+        budget = float(os.environ.get("VERIF_BUDGET_S") or (1500 if self.thorough else 420))
+        if time.time() - self.t0 > budget:
+            if not self.extra.get("stopped_by_time_budget"):
+                self.extra["stopped_by_time_budget"] = {"budget_s": budget, "at_case": self.evaluations}
+                self.notes.append(f"time budget of {budget:.0f}s reached after {self.evaluations} cases; remaining cases not generated")
+            return True
+        return False
+
     # -- reporting
     def _match_known(self, sig: dict) -> dict | None:
         for f in self.known.get("findings", []):
